@@ -30,6 +30,7 @@ CONSTANTS
   CombNs,       \* set of n for combinations
   SortArgs,     \* set of [asc, stable, arg] records applied by the Sort action
   ReduceArgs,   \* set of [r, mask, kd] records applied by the Reduce action
+  MaxNodes,     \* state constraint: total number of layout nodes in cur and aux
   EmitOn        \* BOOLEAN: export transitions as JSON cases
 
 VARIABLES cur, aux, phase, last
@@ -204,7 +205,21 @@ SortOp ==
        Case(IF a.arg = 1 THEN "argsort" ELSE "sort", [axis |-> ax, asc |-> a.asc, stable |-> a.stable],
             VSort(V, T, ax, a.asc, a.arg))
 
-Operate == SortOp \/ ConcatOp \/ SameValueOp \/ ReduceOp \/ Validity \/ ToListOp \/ SliceOp \/ NumOp \/ LocalIndexOp \/ FlattenOp \/ PadOp \/ CombOp
+\* C10: a new or replaced field holds exactly the given values; everything else is unchanged
+SetFieldOp ==
+  /\ Building /\ "setfield" \in OpSet /\ HasAux /\ Valid(cur) /\ Valid(aux)
+  /\ aux.c = "Record" /\ aux.tuple = 0 /\ LLen(cur) = LLen(aux)
+  /\ \E key \in {"x", "z"} :
+       LET recs == ToListS(aux)  what == ToListS(cur)
+           upd(r, w) == IF \E j \in 1..Len(r.ks) : r.ks[j] = key
+                        THEN VRec(r.ks, [j \in 1..Len(r.ks) |-> IF r.ks[j] = key THEN w ELSE r.vs[j]])
+                        ELSE VRec(r.ks \o <<key>>, r.vs \o <<w>>)
+       IN last' = [act |-> "setfield", args |-> [key |-> key], from |-> cur, aux |-> aux,
+                   fromty |-> TypeStr(TypeOf(cur)), auxty |-> TypeStr(TypeOf(aux)), len |-> LLen(cur),
+                   exp |-> [ok |-> 1, v |-> VList([k \in 1..Len(recs) |-> upd(recs[k], what[k])])]]
+  /\ cur' = Sink /\ aux' = NoLayout /\ phase' = "done"
+
+Operate == SetFieldOp \/ SortOp \/ ConcatOp \/ SameValueOp \/ ReduceOp \/ Validity \/ ToListOp \/ SliceOp \/ NumOp \/ LocalIndexOp \/ FlattenOp \/ PadOp \/ CombOp
 
 Next == Build \/ Operate
 Spec == Init /\ [][Next]_vars
@@ -217,5 +232,6 @@ Closed == (phase = "build" /\ ValidOnly) => Valid(cur)
 
 \* export
 Emit == (EmitOn /\ last'.act \notin {"build", "init"}) => PrintT(<<"CASE", ToJson(last')>>)
+SmallEnough == LNodes(cur) + LNodes(aux) <= MaxNodes
 View == <<cur, aux, phase>>
 =============================================================================
